@@ -16,6 +16,7 @@ class SimpleGzipDecompressor(object):
         # http://stackoverflow.com/questions/1838699/how-can-i-decompress-a-gzip-stream-with-zlib
         # This works on cpython and pypy, but not jython.
         self.decompressobj = zlib.decompressobj(16 + zlib.MAX_WBITS)
+        self._held = b''
 
     def decompress(self, value):
         """Decompress a chunk, returning newly-available data.
@@ -23,8 +24,31 @@ class SimpleGzipDecompressor(object):
         Some data may be buffered for later processing; `flush` must
         be called when there is no more input data to ensure that
         all data was processed.
+
+        A gzip stream may consist of several members (RFC 1952 section
+        2.2) whose contents are concatenated. What follows the last member
+        and does not start with the gzip magic number is ignored.
         """
-        return self.decompressobj.decompress(value)
+        data = b''
+        value = self._held + value
+        self._held = b''
+
+        while value:
+            if self.decompressobj.eof:
+                if value[:2] == b'\x1f\x8b':
+                    self.decompressobj = zlib.decompressobj(
+                        16 + zlib.MAX_WBITS)
+                elif value == b'\x1f':
+                    # Possibly the first byte of the next member.
+                    self._held = value
+                    break
+                else:
+                    break
+
+            data += self.decompressobj.decompress(value)
+            value = self.decompressobj.unused_data
+
+        return data
 
     def flush(self):
         """Return any remaining buffered data not yet returned by decompress.
